@@ -40,6 +40,12 @@ CHECKS = {
  "C18": ("bounded-exhaustive enumeration of abstract modules x concrete-syntax styles (E1) and exhaustive token-sequence exploration of the parser (E3)",
          "Abstract modules are built with pyxis's own grammar constructors (all types to nesting depth 4/5 in five positions, all attribute lists up to length 2 over a 13-attribute alphabet in eleven positions, all signatures with up to 3 arguments, all item sequences up to length 3, boundary integers in every integer position), printed by an independent printer in a covering set of styles (comments between all tokens, trailing commas, doc spellings, attribute grouping, integer spellings, backend forms, item interleaving) and must parse back to exactly the same value. Negative side: every token sequence over a 41-token alphabet to length 3, then breadth-first over the sequences the parser has not yet rejected to length 5 (7 thorough): accepted text must re-print and re-parse to the same module, rejected text must report a position inside the text, nothing may panic.",
          "The printer is the harness's; `_` as an argument name is outside the de-facto language (the parser's lookahead does not admit it) and is not generated. No independent recogniser decides accept/reject of arbitrary token strings.", "DESIGN.md §6 C18"),
+ "C19": ("bounded-exhaustive enumeration of metamorphic pairs (E1): input set vs. the same set plus unrelated modules; byte comparison of the observed module's file",
+         "Six base input sets around an observed module x 14 unrelated module bodies built to collide by name with the observed module's types, generated vftable struct, enum and extern value, to import it and to derive from it, x five module paths (including child paths of the observed and of an imported module) x added before/after, singly and in pairs, plus unreferenced types added to imported modules: the observed module's output file must be byte-identical whenever the changed set is accepted.",
+         "Pairs whose changed set is rejected are outside the statement (counted in evidence).", "DESIGN.md §6 C19"),
+ "C20": ("bounded-exhaustive enumeration of descriptions x rewrite-site subsets (E1); byte comparison of outputs",
+         "For every accepted description of the layout space all compatible combinations (up to 8 sites) of: explicit address equal to the current offset, unnamed gap <-> address / #[size], #[size] equal to the natural size; for vftables every subset of functions given its current #[index] (with gaps and declared sizes); for enums every subset of implicit variants given its implicit value; every definition order of a multi-type module; each also re-spelled in hex and with digit separators. The rewritten description must be accepted and produce byte-identical files.",
+         "Rewrite sites and current offsets come from the reference layout model.", "DESIGN.md §6 C20"),
 }
 
 NOT_YET = {
